@@ -25,5 +25,10 @@ def tasks(ctx):
     return filter_tasks(ts)
 
 
+# components whose representation invariants the lemmas above assume in every reachable state (engine/closure.py adds
+# the preservation obligations of all their functions)
+tasks.invariant_packages = ('interrupts',)
+
+
 def run(tier, seed):
     return run_property("C04", tasks, "proof", tier, seed, BASE_ASSUME + ["spec/sm83.py is the oracle for the per-opcode IME effect"], TRUSTED)
